@@ -1325,6 +1325,10 @@ def _early_return(
     return wrapper
 
 
+class _UnknownComparisonError(Exception):
+    """The probe of a comparison was called with a comparison it does not know."""
+
+
 class ExecutionTracer(AbstractExecutionTracer):  # noqa: PLR0904
     """Tracks branch distances and covered statements during execution.
 
@@ -1437,8 +1441,62 @@ class ExecutionTracer(AbstractExecutionTracer):  # noqa: PLR0904
     def executed_code_object(self, code_object_id: int) -> None:  # noqa: D102
         self._thread_local_state.trace.executed_code_objects.add(code_object_id)
 
+    @staticmethod
+    def _evaluate_comparison(value1, value2, cmp_op: PynguinCompare):  # noqa: C901
+        """Evaluates a comparison like the subject under test does.
+
+        Args:
+            value1: The first value
+            value2: The second value
+            cmp_op: The comparison
+
+        Returns:
+            The outcome (None, if it cannot be observed without side effects) and how to
+            compute the distance to the true and to the false branch
+        """
+        match cmp_op:
+            case PynguinCompare.EQ:
+                outcome = bool(value1 == value2)
+                to_true, to_false = (_eq_distance, value1, value2), None
+            case PynguinCompare.NE:
+                outcome = bool(value1 != value2)
+                to_true, to_false = None, (_eq_distance, value1, value2)
+            case PynguinCompare.LT:
+                outcome = bool(value1 < value2)
+                to_true, to_false = (_lt_distance, value1, value2), (_le_distance, value2, value1)
+            case PynguinCompare.LE:
+                outcome = bool(value1 <= value2)
+                to_true, to_false = (_le_distance, value1, value2), (_lt_distance, value2, value1)
+            case PynguinCompare.GT:
+                outcome = bool(value1 > value2)
+                to_true, to_false = (_lt_distance, value2, value1), (_le_distance, value1, value2)
+            case PynguinCompare.GE:
+                outcome = bool(value1 >= value2)
+                to_true, to_false = (_le_distance, value2, value1), (_lt_distance, value1, value2)
+            case PynguinCompare.IN:
+                if isinstance(value2, Iterator):
+                    # A membership test would consume elements of the iterator
+                    # that the subject under test is about to look at.
+                    return None, None, None
+                outcome = bool(value1 in value2)
+                to_true, to_false = (_in_distance, value1, value2), None
+            case PynguinCompare.NOT_IN:
+                if isinstance(value2, Iterator):
+                    return None, None, None
+                outcome = bool(value1 not in value2)
+                to_true, to_false = None, (_in_distance, value1, value2)
+            case PynguinCompare.IS:
+                outcome = value1 is value2
+                to_true, to_false = None, None
+            case PynguinCompare.IS_NOT:
+                outcome = value1 is not value2
+                to_true, to_false = None, None
+            case _:
+                raise _UnknownComparisonError
+        return outcome, to_true, to_false
+
     @_early_return
-    def executed_compare_predicate(  # noqa: D102, C901
+    def executed_compare_predicate(  # noqa: D102
         self, value1, value2, predicate: int, cmp_op: PynguinCompare
     ) -> None:
         with self.temporarily_disable():
@@ -1448,45 +1506,16 @@ class ExecutionTracer(AbstractExecutionTracer):  # noqa: PLR0904
             # Evaluate the comparison exactly once, like the subject under test does;
             # the branch that is taken has distance 0, the distance of the other
             # branch is computed without invoking operators of the values again.
-            match cmp_op:
-                case PynguinCompare.EQ:
-                    outcome = bool(value1 == value2)
-                    to_true, to_false = (_eq_distance, value1, value2), None
-                case PynguinCompare.NE:
-                    outcome = bool(value1 != value2)
-                    to_true, to_false = None, (_eq_distance, value1, value2)
-                case PynguinCompare.LT:
-                    outcome = bool(value1 < value2)
-                    to_true, to_false = (_lt_distance, value1, value2), (_le_distance, value2, value1)
-                case PynguinCompare.LE:
-                    outcome = bool(value1 <= value2)
-                    to_true, to_false = (_le_distance, value1, value2), (_lt_distance, value2, value1)
-                case PynguinCompare.GT:
-                    outcome = bool(value1 > value2)
-                    to_true, to_false = (_lt_distance, value2, value1), (_le_distance, value1, value2)
-                case PynguinCompare.GE:
-                    outcome = bool(value1 >= value2)
-                    to_true, to_false = (_le_distance, value2, value1), (_lt_distance, value1, value2)
-                case PynguinCompare.IN:
-                    if isinstance(value2, Iterator):
-                        # A membership test would consume elements of the iterator
-                        # that the subject under test is about to look at.
-                        return
-                    outcome = bool(value1 in value2)
-                    to_true, to_false = (_in_distance, value1, value2), None
-                case PynguinCompare.NOT_IN:
-                    if isinstance(value2, Iterator):
-                        return
-                    outcome = bool(value1 not in value2)
-                    to_true, to_false = None, (_in_distance, value1, value2)
-                case PynguinCompare.IS:
-                    outcome = value1 is value2
-                    to_true, to_false = None, None
-                case PynguinCompare.IS_NOT:
-                    outcome = value1 is not value2
-                    to_true, to_false = None, None
-                case _:
-                    raise AssertionError("Unknown compare op")
+            try:
+                outcome, to_true, to_false = self._evaluate_comparison(value1, value2, cmp_op)
+            except _UnknownComparisonError as err:
+                raise AssertionError("Unknown compare op") from err
+            except Exception:  # noqa: BLE001
+                # The comparison of the subject under test is going to raise this itself,
+                # with tracing enabled; no branch is taken.
+                return
+            if outcome is None:
+                return
             distance_true, distance_false = _branch_distances(outcome, to_true, to_false)
             self._update_metrics(distance_false, distance_true, predicate)
 
@@ -1497,7 +1526,13 @@ class ExecutionTracer(AbstractExecutionTracer):  # noqa: PLR0904
             distance_false = 0.0
             # Might be necessary when using Proxies.
             value = tt.unwrap(value)
-            if value:
+            try:
+                truth = bool(value)
+            except Exception:  # noqa: BLE001
+                # The subject under test is going to raise this itself, with tracing
+                # enabled; no branch is taken.
+                return
+            if truth:
                 if isinstance(value, Sized):
                     # Sized instances evaluate to False if they are empty,
                     # and to True otherwise, thus we can use their size as a distance
